@@ -68,12 +68,48 @@ def r_exact(cov, vx, vy):
     return float(cov) / math.sqrt(float(vx) * float(vy))
 
 
+# ---- extreme power-of-two scales ("data of any scale"): the implementation sees x * 2^ex and y * 2^ey, the Lean
+# definitions are evaluated on the unscaled exact values (theorems pearson_affine / pearson_symm: r does not depend on
+# the scales; ICQ and the Manders ratios are checked to be equal on scaled and unscaled values by a second driver call).
+# A case is decided only while every intermediate of the textbook formula, evaluated the way the formula is written
+# (the two means, the products and their mean, the squared deviations and the two variances inside the standard
+# deviations, the product of the two standard deviations, the products of deviations of the ICQ, the Manders sums),
+# stays between XS_LO and XS_HI for the scaled data: then scaling by powers of two commutes with every float operation
+# up to absolute errors <= 2^-1074 against denominators >= 2^-960.  Everything beyond is undetermined.
+XS_LO = Fraction(1, 2 ** 960)
+XS_HI = Fraction(2 ** 1000)
+XS_K = [150, -150, 250, -250, 300, -300, 330, -330]
+XS_BEYOND = [[520, 520], [-520, -520], [-520, 520], [700, 0], [0, -700], [-1060, 0], [0, 1010], [-480, -480], [-470, -470],
+             [495, 495]]
+
+
+def xscale_guard(xs, ys, vx, vy, dx, dy, ex, ey):
+    """exact: xs, ys unscaled values (dyadic), vx, vy their variances, dx, dy their smallest non-zero |deviation|"""
+    px, py = Fraction(2) ** ex, Fraction(2) ** ey
+    ux, uy = Fraction(1, max(v.denominator for v in xs)), Fraction(1, max(v.denominator for v in ys))  # every sum is a multiple
+    ax, ay = sum(abs(v) for v in xs), sum(abs(v) for v in ys)
+    lows = [ux * px, uy * py, ux * uy * px * py, vx * px * px, vy * py * py, dx * px, dy * py, dx * dy * px * py]
+    highs = [ax * px, ay * py, 4 * ax * ay * px * py, sum(abs(a * b) for a, b in zip(xs, ys)) * px * py,
+             sum(v * v for v in xs) * px * px, sum(v * v for v in ys) * py * py]
+    return all(v >= XS_LO for v in lows) and all(v <= XS_HI for v in highs)
+
+
+def xscale_class(ex, ey):
+    if ex == 0 or ey == 0:
+        return "one-image"
+    if (ex > 0) != (ey > 0):
+        return "opposite"
+    return ("same" if ex == ey else "mixed") + ("+" if ex > 0 else "-")
+
+
 class C14(Prop):
     id = "C14"
     anchored = ["src/pewlib/process/colocal.py", "src/pewlib/process/calc.py"]
     cases = {"quick": 420, "thorough": 9000}
     rule = ("three streams. coeff: dyadic image pairs (independent, correlated, anti-correlated, two-valued tiles, ties at the "
-            "mean), scales 2^-10..2^20, offsets, thresholds None/0/min/data value/between; shuffle: 1-D and 2-D arrays, blocks "
+            "mean), scales 2^-10..2^20, offsets, thresholds None/0/min/data value/between; 30% of them (and 32 fixed ones) in extreme units: "
+            "image x times 2^ex, image y times 2^ey with exponents +-150, +-250, +-300, +-330 in the same direction, in opposite "
+            "directions, on one image only, mixed (e.g. -300/-230), and a few beyond what float64 can evaluate (undetermined); shuffle: 1-D and 2-D arrays, blocks "
             "1..5 per axis, shapes multiple of the block or not (also smaller than the block), masks full/partial/ragged/"
             "block-cutting/empty (bool or float), both modes, partial on/off, permutations identity/reverse/rotate/random; "
             "prob: 2-D pairs, mask None/full/partial/ragged, blocks 1..5, n = 1..6. non-trivial = at least two blocks "
@@ -81,7 +117,14 @@ class C14(Prop):
             "canonical case hash")
     trusted = ["np.pad(mode='edge'), np.nonzero, ravel_multi_index/unravel_index, fancy-index assignment, as_strided as documented; "
                "the harness's stand-in for numpy.random.permutation returns a permutation of its argument; Pearson's r compared "
-               "at 1e-9 + 64*eps*(|E xy| + |Ex Ey|)/(sx sy); rs > r decisions closer than that may go either way"]
+               "at 1e-9 + 64*eps*(|E xy| + |Ex Ey|)/(sx sy); rs > r decisions closer than that may go either way",
+               "extreme units (xscale:*): the Lean definitions are evaluated on the exact values in ordinary units (r does not depend "
+               "on the units: theorems pearson_affine, pearson_symm) and, for ICQ, Manders, r^2 and the sign of r, also on the values as "
+               "given, with exact agreement demanded; a case is decided only while the textbook formula as written can be "
+               "evaluated in float64 for the given data: the data unit and the unit of the products (so every sum, mean and product), "
+               "the two variances formed inside the standard deviations (so also their product), the smallest non-zero deviations and "
+               "their product (ICQ) are >= 2^-960, and the sums of |x|, |y|, |xy|, x^2, y^2 and 4 sum|x| sum|y| are <= 2^1000 (exact "
+               "rational test in evaluate, also for the two affine variants); otherwise undetermined"]
     assumptions = ["float64 images with dyadic values (sums and products exact); images non-constant over the pixels used; "
                    "Manders only with a non-zero image sum; block sizes >= 1; n >= 1"]
 
@@ -136,9 +179,12 @@ class C14(Prop):
                 q = Fraction(q, den) + off
                 return [q.numerator, q.denominator]
 
-            return {"kind": "coeff", "shape": shape, "x": x, "y": y, "den": den, "offx": offx, "offy": offy,
+            case = {"kind": "coeff", "shape": shape, "x": x, "y": y, "den": den, "offx": offx, "offy": offy,
                     "spow": rng.choice([0, 0, 0, -10, 7, 20]), "tx": thr(x, offx), "ty": thr(y, offy),
                     "a_pow": rng.choice([-3, 0, 1, 5]), "b": rng.choice([0, 1, -7, 1000]), "gen": [style]}
+            if rng.random() < 0.3:  # extreme units: image x times 2^ex, image y times 2^ey (drawn last: older cases unchanged)
+                case["xpow"] = self.gen_xpow(rng)
+            return case
         if stream == "shuffle":
             ndim = rng.choice([1, 2, 2])
             block = [rng.randint(1, 5) for _ in range(ndim)]
@@ -180,6 +226,18 @@ class C14(Prop):
                 "n": rng.randint(1, 6), "perm": rng.choice(["random"] * 14 + ["identity", "reverse"]),
                 "pseed": rng.randrange(10 ** 9), "gen": [style, "mask:" + mk["kind"]]}
 
+    def gen_xpow(self, rng):
+        kind = rng.choice(["same", "same", "same", "opposite", "one", "mixed", "mixed", "beyond"])
+        k = rng.choice(XS_K)
+        if kind == "same":
+            return [k, k]
+        if kind == "opposite":
+            return [k, -k]
+        if kind == "beyond":  # mostly outside the guard of evaluate (undetermined there), some just inside
+            return list(rng.choice(XS_BEYOND))
+        other = 0 if kind == "one" else (1 if k > 0 else -1) * rng.choice([40, 100, 200, 230, 270, 310])
+        return [k, other] if rng.random() < 0.5 else [other, k]
+
     def gen_mask(self, rng, shape, block, allow_empty=True):
         kinds = ["full"] * 4 + ["partial"] * 3 + ["ragged"] * 2 + ["cut"] * 2 + ["rows"] * 2 + (["empty"] if allow_empty else [])
         kind = rng.choice(kinds)
@@ -217,6 +275,15 @@ class C14(Prop):
             for tx, ty in ((None, None), ([0, 1], None), ([0, 1], [0, 1])):
                 yield {"kind": "coeff", "shape": [6, 6], "x": tile(a), "y": tile(pats[k]),
                        "den": 1, "offx": 0, "offy": 0, "spow": 0, "tx": tx, "ty": ty, "a_pow": 1, "b": 3, "gen": ["repo-pattern"]}
+        # extreme units on one fixed correlated pair: same direction, opposite, one image only, mixed, beyond the guard
+        xs_pairs = [[k, k] for k in XS_K] + [[k, -k] for k in XS_K] + [[k, 0] for k in (300, -300, 330, -330)]
+        xs_pairs += [[0, k] for k in (300, -300, 330, -330)] + [[-300, -230], [-230, -300], [300, 230], [-330, -150], [330, 250]]
+        xs_pairs += [[520, 520], [-520, -520], [-1060, 0]]
+        for i, xp in enumerate(xs_pairs):
+            yield {"kind": "coeff", "shape": [8] if i % 2 else [2, 4], "x": [3, 17, 41, 8, 55, 23, 30, 12], "y": [5, 20, 38, 11, 60, 19, 33, 9],
+                   "den": [1, 8][i % 2], "offx": 0, "offy": [0, 100][i % 3 == 0], "spow": [0, -10, 7][i % 3],
+                   "tx": [None, [17, 1], [0, 1]][i % 3], "ty": [None, [0, 1]][i % 2], "a_pow": [1, -3, 5][i % 3], "b": [3, 0, -7][i % 3],
+                   "xpow": xp, "gen": ["corr"]}
         # shuffling: the 20x20 / block 3 case of the repaired defect, and small boundary shapes
         for mode in ("pad", "inplace"):
             for part in (False, True):
@@ -247,17 +314,37 @@ class C14(Prop):
         from pewlib.process import colocal
 
         shape = case["shape"]
-        xv = values(case["x"], case["den"], case["offx"], case["spow"])
-        yv = values(case["y"], case["den"], case["offy"], case["spow"])
-        x, y = to_arr(xv, shape), to_arr(yv, shape)
-        xq, yq = exact(x), exact(y)
+        ex, ey = case.get("xpow") or [0, 0]  # extreme units: the implementation sees x * 2^ex, y * 2^ey
+        extreme = bool(ex or ey)
+        px, py = Fraction(2) ** ex, Fraction(2) ** ey
         sc = Fraction(2) ** case["spow"]
-        tx = None if case["tx"] is None else float(Fraction(*case["tx"]) * sc)
-        ty = None if case["ty"] is None else float(Fraction(*case["ty"]) * sc)
-        a, b = 2.0 ** case["a_pow"], float(case["b"]) * float(sc)
-        x2, y2 = a * x + b, a * y + b  # exact for the generated dyadic values
-        if exact(x2) != [Fraction(a) * v + Fraction(b) for v in xq]:
-            raise core.InternalError("affine image not exact")
+        beyond = lambda: outcome(None, None, None, spec_ok=True, model_ok=True, undetermined=True,
+                                 features=["xscale:beyond-guard(undetermined)"])
+        try:
+            x = to_arr(values(case["x"], case["den"], case["offx"], case["spow"] + ex), shape)
+            y = to_arr(values(case["y"], case["den"], case["offy"], case["spow"] + ey), shape)
+            tx = None if case["tx"] is None else float(Fraction(*case["tx"]) * sc * px)
+            ty = None if case["ty"] is None else float(Fraction(*case["ty"]) * sc * py)
+            a, bx, by = 2.0 ** case["a_pow"], float(case["b"] * sc * px), float(case["b"] * sc * py)
+        except OverflowError:  # data not representable in float64 (only with extreme units)
+            if not extreme:
+                raise
+            return beyond()
+        # the exact values the implementation is given, and the same in ordinary units (what the Lean side evaluates)
+        xs, ys = exact(x), exact(y)
+        xq, yq = [v / px for v in xs], [v / py for v in ys]
+        txq, tyq = None if tx is None else Fraction(tx) / px, None if ty is None else Fraction(ty) / py
+        x2, y2 = a * x + bx, a * y + by  # exact for the generated dyadic values
+        af, bfx, bfy = Fraction(a), Fraction(bx) / px, Fraction(by) / py
+        if not np.all(np.isfinite(x2)) or not np.all(np.isfinite(y2)):
+            if not extreme:
+                raise core.InternalError("affine image not finite")
+            return beyond()
+        x2q, y2q = [v / px for v in exact(x2)], [v / py for v in exact(y2)]
+        if x2q != [af * v + bfx for v in xq] or y2q != [af * v + bfy for v in yq]:
+            if not extreme:
+                raise core.InternalError("affine image not exact")
+            return beyond()
         snap = [v.copy() for v in (x, y, x2, y2)]
         try:
             impl = {"icq": float(colocal.li_icq(x, y)), "r": float(colocal.pearsonr(x, y)), "r_yx": float(colocal.pearsonr(y, x)),
@@ -267,8 +354,15 @@ class C14(Prop):
         except Exception as e:
             impl = {"raises": type(e).__name__, "msg": str(e)[:200]}
         impl["args_unchanged"] = all(np.array_equal(u, v) for u, v in zip((x, y, x2, y2), snap))
-        rep = ctx.driver.call("c14.coeff", x=[core.rat(v) for v in xq], y=[core.rat(v) for v in yq],
-                              tx=None if tx is None else core.rat(tx), ty=None if ty is None else core.rat(ty))
+        orat = lambda v: None if v is None else core.rat(v)
+        rep = ctx.driver.call("c14.coeff", x=[core.rat(v) for v in xq], y=[core.rat(v) for v in yq], tx=orat(txq), ty=orat(tyq))
+        if extreme:
+            # the Lean definitions on the values as given: every scale-free output must be the one of the ordinary units
+            rep_s = ctx.driver.call("c14.coeff", x=[core.rat(v) for v in xs], y=[core.rat(v) for v in ys],
+                                    tx=orat(None if tx is None else Fraction(tx)), ty=orat(None if ty is None else Fraction(ty)))
+            for k in ("r_sq", "r_sign", "icq", "icq_spec", "m1", "m2", "m1_spec", "m2_spec"):
+                if rep_s[k] != rep[k]:
+                    raise core.InternalError(f"Lean {k} differs between the given and the ordinary units: {rep_s[k]} / {rep[k]}")
         g = lambda k: unrat(rep[k])
         vx, vy, cov = g("var_x"), g("var_y"), g("cov")
         feats = {"coeff", f"ndim{len(shape)}"} | set(case.get("gen", []))
@@ -276,14 +370,22 @@ class C14(Prop):
             return outcome(impl, None, None, spec_ok=True, model_ok=True, hyp=False, features=[])
         r = r_exact(cov, vx, vy)
         tol = r_tol(g("mean_xy"), g("mean_x"), g("mean_y"), vx, vy)
-        af, bf = Fraction(a), Fraction(b)
-        tol_ax = r_tol(af * g("mean_xy") + bf * g("mean_y"), af * g("mean_x") + bf, g("mean_y"), af * af * vx, vy)
-        tol_ay = r_tol(af * g("mean_xy") + bf * g("mean_x"), g("mean_x"), af * g("mean_y") + bf, vx, af * af * vy)
+        tol_ax = r_tol(af * g("mean_xy") + bfx * g("mean_y"), af * g("mean_x") + bfx, g("mean_y"), af * af * vx, vy)
+        tol_ay = r_tol(af * g("mean_xy") + bfy * g("mean_x"), g("mean_x"), af * g("mean_y") + bfy, vx, af * af * vy)
         sums_ok = g("sum_x") != 0 and g("sum_y") != 0
         nonneg = min(xq) >= 0 and min(yq) >= 0
         scale = max(max(abs(v) for v in xq), max(abs(v) for v in yq))
         devs = [unrat(rep[k]) for k in ("min_dev_x", "min_dev_y") if rep[k] is not None]
         icq_und = any(d < Fraction(1, 10 ** 9) * scale for d in devs)
+        xs_und = False
+        if extreme:
+            dx, dy = g("min_dev_x"), g("min_dev_y")  # present: neither image is constant
+            xs_und = not all(xscale_guard(u, v, wu, wv, du, dv, ex, ey) for u, v, wu, wv, du, dv in (
+                (xq, yq, vx, vy, dx, dy), (x2q, yq, af * af * vx, vy, af * dx, dy), (xq, y2q, vx, af * af * vy, dx, af * dy)))
+            if not xs_und:
+                feats |= {"xscale", "xscale:" + xscale_class(ex, ey)}
+                lg = math.log2(float(vx) * float(vy)) / 2 + ex + ey  # log2 of the product of the two standard deviations
+                feats.add("xscale:std-product-" + ("beyond" if abs(lg) >= 511 else "within") + "-2^+-511")
         model = {"icq": float(g("icq")), "r": r, "r_yx": r_exact(g("cov_yx"), vy, vx), "r_ax": r, "r_ay": r,
                  "m1": float(g("m1")) if sums_ok else None, "m2": float(g("m2")) if sums_ok else None, "args_unchanged": True}
         spec = {"icq": float(g("icq_spec")), "r": r_exact(g("cov_centred"), vx, vy), "r_symmetric": True, "r_affine": True,
@@ -307,7 +409,7 @@ class C14(Prop):
             feats.add("deviation-exactly-zero")
         if case["tx"] is not None or case["ty"] is not None:
             feats.add("explicit-threshold")
-        if (ty is not None and Fraction(ty) in yq) or (tx is not None and Fraction(tx) in xq):
+        if (tyq is not None and tyq in yq) or (txq is not None and txq in xq):
             feats.add("threshold-on-value")
         if not nonneg:
             feats.add("negative-values")
@@ -318,7 +420,9 @@ class C14(Prop):
         if case["offx"] or case["offy"]:
             feats.add("offset")
         feats.add("r:" + ("+1" if abs(r - 1) < 1e-12 else "-1" if abs(r + 1) < 1e-12 else "0" if cov == 0 else "other"))
-        return outcome(impl, model, spec, spec_ok=cmp(spec), model_ok=cmp(model), undetermined=icq_und, features=feats)
+        if xs_und:
+            feats = {"xscale:beyond-guard(undetermined)"}
+        return outcome(impl, model, spec, spec_ok=cmp(spec), model_ok=cmp(model), undetermined=icq_und or xs_und, features=feats)
 
     # ---- shuffle_blocks
     def eval_shuffle(self, case, ctx):
@@ -518,6 +622,11 @@ class C14(Prop):
             for k in ("tx", "ty"):
                 if case[k] is not None:
                     yield {**case, k: None}
+            if case.get("xpow"):
+                yield {k: v for k, v in case.items() if k != "xpow"}
+                for i in (0, 1):
+                    if case["xpow"][i] and case["xpow"][1 - i]:
+                        yield {**case, "xpow": [0 if j == i else v for j, v in enumerate(case["xpow"])]}
 
 
 PROP = C14()
